@@ -602,7 +602,11 @@ def run_markup(ctx, model_ok=True):
                  'C07_parser_output_convertible', 'C07_bem_safe (BEM addon never raises: all nodes, paths, cache states, separators, contexts)',
                  'C07_transform_safe (transform pass incl. BEM is total)',
                  'C07_expand_safe (markup model, all inputs, all configurations with wf snippet table, bem.enabled included)',
-                 'C07_expand_safe_any_table (malformed user snippets: position inside the snippet text)'],
+                 'C07_expand_safe_any_table (malformed user snippets: position inside the snippet text)',
+                 'props/Href.v (markup.href model extension): Href_url_matcher / Href_email_matcher / Href_proto_matcher (matcher = '
+                 'denotation of its regex, all strings), Href_value, Href_value_nonempty, Href_attrs_spec, Href_never_overwrites, '
+                 'Href_written_only_when_empty, Href_text_as_by_insert_text, Href_off_is_href_free_converter (porting lemma), '
+                 'Href_converter_cases, Href_same_outcome (markup.href adds no failure), Href_deepest_last_element'],
         'partial': [],
         'by_construction': ['formatters return plain values (no res, no fuel): proofs/SafeFormat.v'],
         'not_in_model(implementation oracle only)': ['lorem text generation',
